@@ -116,15 +116,15 @@ PROPS = {
     'C06': {
         'lean': ['Purr.Props.C06'],
         'suites': [
-            {'name': 'read', 'nontrivial': nontrivial_read},
-            {'name': 'atom', 'nontrivial': nontrivial_read},
-            {'name': 'graph', 'nontrivial': lambda rq, resp: True},
-            {'name': 'events', 'nontrivial': lambda rq, resp: True},
-            {'name': 'val', 'requests': r'VAL '},
-            {'name': 'depth'},
+            {'name': 'read', 'panic_only': True, 'nontrivial': nontrivial_read},
+            {'name': 'atom', 'panic_only': True, 'nontrivial': nontrivial_read},
+            {'name': 'graph', 'panic_only': True, 'nontrivial': lambda rq, resp: True},
+            {'name': 'events', 'panic_only': True, 'nontrivial': lambda rq, resp: True},
+            {'name': 'val', 'requests': r'VAL ', 'panic_only': True},
+            {'name': 'depth', 'panic_only': True},
         ],
         'soak': {'quick': [('nested', 100000), ('chain', 100000)], 'thorough': [('nested', 100000), ('chain', 1000000), ('dots', 1000000), ('branches', 500000)]},
-        'rule': 'every suite of the harness with every response field compared (a panic of the real code where the model has none is a '
+        'rule': 'every suite of the harness with the panic behaviour of every response field compared (a panic of the real code where the model has none is a '
                 'disagreement): bounded-exhaustive and random strings incl. multi-byte and control characters, all small adjacency lists '
                 'incl. garbage (dangling, self, duplicate, asymmetric bonds), random well-formed and mutated graphs up to 300 atoms, ring-rich '
                 'graphs up to 120 open closures, conformant and malformed event histories, hydrogen queries at sums beyond 255, size families '
